@@ -13,7 +13,7 @@ from sa.report import Ctx
 from .common import generic_sweeps
 from sa.stutter import stutter_paths
 
-from .sat_common import SatRoles, check_add_sites, check_binary_add, check_assumption_assertion, check_analysis, check_assign, check_backtrack, check_bcp, check_main_loop, check_heap_flags, check_variable_universe, check_input_copy
+from .sat_common import SatRoles, check_add_sites, check_binary_add, check_binary_clear, check_assumption_assertion, check_analysis, check_assign, check_backtrack, check_bcp, check_main_loop, check_heap_flags, check_variable_universe, check_input_copy
 
 EXPLANATION = (
     "Decides structural necessary conditions of 'INFEASIBLE only without a model / always returns within budgets' on "
@@ -38,6 +38,7 @@ def run(ctx: Ctx):
     ctx.step(check_pure_vs_assumptions, roles)
     ctx.step(check_add_sites, roles, "C02-O5")
     ctx.step(check_binary_add, "C02-O5")
+    ctx.step(check_binary_clear, "C02-O5")
     ctx.step(check_backtrack, roles, "C02-O6")
     ctx.step(check_analyze_guard, roles)
     ctx.step(check_assumption_assertion, roles, "C02-O7")
